@@ -234,6 +234,12 @@ FlattenEv(e) ==
                  Fail("C11.multiset", c, <<"lost", leaves \ got, "extra", got \ leaves, "entries", Len(tree[c].kids)>>))
             \cup When(\A i \in DOMAIN tree : i = c \/ tree[i].t = "op", Fail("C11.nocomposite", c, <<>>))
             \cup When(e.same_structure, Fail("C11.inplace", c, <<>>))
+            \* a modifier-applied circuit (no pending count) exports the same instructions before and after flattening (as a
+            \* multiset: which relation a flat operation carries, hence the order, is left open for arbitrary programs)
+            \cup (IF c \in applied /\ e.stim_before.status = "ok" /\ e.stim_after.status = "ok"
+                  THEN When(Multiset(e.stim_before.flat) = Multiset(e.stim_after.flat),
+                            Fail("C11.stim.multiset", c, <<"exported before", Len(e.stim_before.flat), "after flattening", Len(e.stim_after.flat)>>))
+                  ELSE {})
             \cup (IF c \in flats
                   THEN When(tree[c].kids = H[c].kids /\ \A i \in got \cap leaves : Clean(e.links[i]) = H[i].link,
                             Fail("C11.idempotent", c, <<"second flatten changed the circuit">>))
